@@ -17,14 +17,15 @@ structure ERec where
   escrow : List (String × String × Int)
   qid : String
   round : Nat
+  start : Int := 0
 
 def parseE (s : String) : Option ERec :=
   match colon s with
-  | [id, st, cat, sl, ft, rep, pw, h, op, et, eo, q, rd] => do
+  | [id, st, cat, sl, ft, rep, pw, h, op, et, eo, q, rd, stt] => do
     let eol := (if eo.isEmpty then [] else eo.splitOn "+").filterMap (fun o => match o.splitOn "." with
       | [d, v, a] => (parseInt? a).map (fun x => (d, v, x)) | _ => none)
     pure ⟨← parseNat? id, ← parseNat? st, ← parseNat? cat, ← parseInt? sl, ← parseInt? ft, rep, ← parseInt? pw, ← parseInt? h, op == "true",
-          if et == "-" then none else parseInt? et, eol, q, ← parseNat? rd⟩
+          if et == "-" then none else parseInt? et, eol, q, ← parseNat? rd, ← parseInt? stt⟩
   | _ => none
 
 structure Snap where
@@ -112,6 +113,12 @@ def finishSlashBlock (sc : SlScan) : SlScan := Id.run do
           sc := { sc with nExpired := sc.nExpired + 1 }
           if d.escTotal.isSome then sc := sfail sc s!"expired dispute {d.id} has escrowed stake"
       | none => pure ()
+      -- a first-round dispute whose fee is not complete one day after its proposal has expired: it is neither still collecting
+      -- after this block nor funded later
+      if d.round == 1 && d.status == 0 && cur.now > d.start + 86400000 then
+        sc := sfail sc s!"dispute {d.id} still collects its fee at t={cur.now}, more than a day after its proposal at {d.start}"
+      if fundedNow && d.round == 1 && cur.now > d.start + 86400000 then
+        sc := sfail sc s!"dispute {d.id} was funded (and slashed) at t={cur.now}, more than a day after its proposal at {d.start}"
       if fundedNow then
         sc := { sc with nFunded := sc.nFunded + 1 }
         match catOf d.cat with
